@@ -174,6 +174,17 @@ CLAIMED = {
         design_ref="DESIGN.md 3 C15; engines/kani/NOTES_C15.md",
         note="Algebraic claims (Lagrange interpolation, aggregate verifies) are not posed; choose only for <= 2 commitments (thorough).",
     ),
+    "C16": dict(
+        engine="kani",
+        technique="Kani/CBMC proof harnesses inside each LMS parameter-set module: one step of sign from an arbitrary key state (induction over all histories), verify against an RFC 8554 transcription with stand-in hashes; concrete-playback replay",
+        category="model_checking",
+        text=("From an arbitrary PrivateKey state: sign returns None and leaves the state bit-identical iff the key is "
+              "exhausted; otherwise the signature carries the old leaf index, the state is advanced before the RNG is "
+              "first used, and the authentication path is RFC 8554's; verify equals the RFC algorithm for all signature "
+              "strings and rejects every wrong length / type word / out-of-range index. All four parameter sets."),
+        design_ref="DESIGN.md 3 C16; engines/kani/NOTES_C16.md",
+        note="Hash functions are deterministic stand-ins (collision resistance is outside); Winternitz chain lengths fixed by Q=00..00 / FF..FF; symbolic current_leaf harness in the thorough tier.",
+    ),
     "C17": dict(
         engine="llsym",
         technique="symbolic execution of optimized LLVM IR: (1) every call pattern in the bound with all message/key bytes symbolic and the compression function uninterpreted, against the standards' padding/chaining rules (QF_UFBV / hash-consed equality); (2) each compression function equal to the standard's round function by word-level sweeping with z3 lemmas",
